@@ -87,7 +87,8 @@ impl Ssh {
                                     tracing::debug!("got data on channel");
                                     in_buf.extend_from_slice(&data);
                                     tracing::debug!("checking for message break marker");
-                                    if let Some(index) = message_break.find(&in_buf) {
+                                    // a single packet may complete more than one message
+                                    while let Some(index) = message_break.find(&in_buf) {
                                         let end  = index + MARKER.len();
                                         tracing::info!("splitting {end} message bytes from input buffer");
                                         let message = in_buf.split_to(end).freeze();
